@@ -104,7 +104,8 @@ def single_domain(schema, f, kind):
             return inner_domain()
         return [{"k": "msg", "m": fresh(schema, f["msg"])}]
     if kind == "timestamp":
-        return [{"k": "ts", "us": av.rawint(u)} for u in US_TS]
+        return [{"k": "ts", "us": av.rawint(u)} for u in US_TS] + \
+               [{"k": "ts", "us": av.rawint(u), "tz": tz} for u, tz in ((1700000000123456, 330), (0, -480), (-1, 840), (951782400 * 10**6, -720), (5000, 1))]
     if kind == "duration":
         return [{"k": "dur", "us": av.rawint(u)} for u in US_DUR]
     if kind == "wrap":
@@ -218,6 +219,8 @@ def rsingle(schema, f, kind, rnd, depth):
                 us += rnd.randint(0, 99) * 1000
         elif c < .35:
             us -= us % 10**6
+        if rnd.random() < .3:       # an aware datetime of another zone denotes the same instant
+            return {"k": "ts", "us": av.rawint(us), "tz": rnd.choice([60, -300, 330, 765, -720, 840, 1, -1])}
         return {"k": "ts", "us": av.rawint(us)}
     if kind == "duration":
         if rnd.random() < .3:
